@@ -96,6 +96,7 @@ package main
 //@   pure
 //@ extern os.Stat
 //@   pure
+//@   ensures err == nil ==> nonnil(result)
 //@ extern os.Rename
 //@   pure
 //@   ghost-effect fileState[newpath] = (err == nil) ? (tmpDone[oldpath] == 1 ? 2 : 1) : fileState[newpath]
